@@ -5,6 +5,7 @@ cd "$(dirname "$0")"
 export CARGO_NET_OFFLINE=true
 [ -f harness/Cargo.lock ] || cp /repo/Cargo.lock harness/Cargo.lock
 (cd harness && cargo build --offline --quiet)
+cargo build --offline --quiet --manifest-path /repo/Cargo.toml -p duckscript_cli --target-dir harness/target/cli
 mkdir -p work evidence replays
 for f in spec/*.tla; do
   (cd spec && java -cp /opt/veriftools/tla/tla2tools.jar:/opt/veriftools/tla/CommunityModules-deps.jar tla2sany.SANY "$(basename "$f")" >/dev/null 2>&1) || { echo "SANY failed on $f"; exit 1; }
